@@ -89,8 +89,10 @@ def run_tree(case):
                     labels.add("ungrouped-add-with-ancilla")
         if op[0] in ("bs", "ps") and c._internal_modes and op[-1 if op[0] == "ps" else 5] > 0:
             labels.add("lossy-shorthand-after-ancilla")
-        c = call(f"apply {op[0]}", apply_real, c, op)
+        c = call(f"apply {op[0]}", apply_real, c, op, None, np.int64 if case.get("np_modes") else None)
     w = build_model(prog)
+    if case.get("np_modes"):
+        labels.add("numpy-int64-modes")
     compare(c, w, case["iseed"])
     s = gen.program_stats(prog)
     if s["inout"]:
@@ -170,6 +172,7 @@ def subs(tier):
     case_adds = st.fixed_dictionaries({
         "prog": gen.addition_tree(max_herald_photons=1),
         "iseed": st.integers(0, 2 ** 20),
+        "np_modes": st.sampled_from([False, False, False, True]),     # modes as produced by numpy.arange
     })
     return [
         Sub("addition-trees", run_tree, strategy=case_adds, examples=150 if q else 4000),
